@@ -40,6 +40,8 @@ var targetFile = map[string]string{
 	"lazyTTL":      "GenRelayFwd",
 	"dcsSucceeded": "GenFrame",
 	"dcsFailMsg":   "GenFrame",
+	// C09: relay.go admission / close decisions
+	"relayCanHandleNewCall": "GenRelayFwd",
 }
 
 // varFields: constant fields of package-level composite-literal variables.
@@ -269,4 +271,16 @@ var targets = []Target{
 		Params: "(cur : Z)", Ret: "Z",
 		Stmt: "if ch.mutable.state < ChannelStartClose {", AssignRet: "ch.mutable.state", Rest: "cur",
 		Hints: map[string]string{"ch.mutable.state": "cur"}},
+	// relay.go (C09): Relayer.canHandleNewCall -- the admission decision taken under the connection's
+	// state read-lock (the closure runs in place; the pending increment it guards is the model's
+	// ICanHandle / IRemoteCan action) -- and Relayer.canClose (the LDrained guard of the model)
+	{Func: "Relayer.canHandleNewCall", Out: "relayCanHandleNewCall", Params: "(state : Z)", Ret: "bool", RetIdx: 0,
+		Hints: map[string]string{"r.conn.state": "state"},
+		SHints: map[string]string{
+			"var (...":                             "",
+			"r.conn.withStateRLock(...":            "inline-closure",
+			"if canHandle {\n\tr.pending.Inc()\n}": "",
+		}},
+	{Func: "Relayer.canClose", Out: "relayCanClose", File: "GenRelayFwd", Params: "(is_nil : bool) (pending : Z)", Ret: "bool",
+		Hints: map[string]string{"r == nil": "is_nil", "r.countPending()": "pending"}},
 }
